@@ -34,9 +34,20 @@ def main(ctx):
         if not v.get("behaviour") or not v.get("session"):
             print("replay file has no behaviour/session")
             return 2
-        b = dict(v["behaviour"]); b["sid"] = 0
-        infos = recvlib.session_infos(ctx, [v["session"]], "replay")
-        recvlib.run_rx(ctx, [v["session"]], infos, [b], "replay", workers=1)
+        b = dict(v["behaviour"])
+        if v.get("sessions"):
+            # several streams: rebuild the list of sessions and renumber
+            sids = sorted(int(k) for k in v["sessions"])
+            ren = {s: n for n, s in enumerate(sids)}
+            rspecs = [v["sessions"][str(s)] for s in sids]
+            b["streams"] = [[ren[x[0]], x[1]] for x in b["streams"]]
+            b["sid"] = ren[b["sid"]]
+        else:
+            rspecs = [v["session"]]
+            b["sid"] = 0
+        infos = recvlib.session_infos(ctx, rspecs, "replay")
+        mon = "Mon_Multi" if ctx.prop == "C18" else "Mon_Receiver"
+        recvlib.run_rx(ctx, rspecs, infos, [b], "replay", workers=1, monitor=mon, limit_ms=20000)
         mine = [x for x in ctx.violations if x.get("property") == ctx.prop]
         for x in dedupe_viol(ctx.violations):
             print("%s %s line=%s witness=%s" % (x.get("property"), x.get("what"), x.get("line"), json.dumps(x.get("witness"))[:300]))
